@@ -380,15 +380,15 @@ theorem Inv3.step {s : AState} (i : Inv3 s) (j : Inv1 s) (op : Op) (hop : OpOK s
     simp only [Pool.C08.step]
     obtain ⟨hr, _, _⟩ := hop
     have i0 : Inv3 { s with wallet := known } := i.of_frame rfl rfl
-    apply Inv3.resume (i0.write a)
+    apply Inv3.resume (i0.write _)
     · intro hst t ht
       apply wrote_self
-      have : a.stored = a := by
-        unfold Acct.stored
-        rcases hst with h | h <;> simp [h]
-      rw [this]; exact ht
+      have hst' : a.state = .pendingOpen ∨ a.state = .pendingClosed := hst
+      unfold Acct.stored
+      rcases hst' with h | h <;> simp [h] <;> exact ht
     · intro hst
-      obtain ⟨t, h1, h2, _⟩ := hr.1 (by rw [hst]; rfl)
+      have hst' : a.state = .pendingOpen := hst
+      obtain ⟨t, h1, h2, _⟩ := hr.1 (by rw [hst']; rfl)
       exact ⟨t, h1, h2⟩
 
 end Pool.C08
